@@ -11,6 +11,7 @@
   satisfies the predicate.
 -/
 import Rtp.Pred.C20
+import Rtp.Proofs.CloneMem
 namespace Rtp.Props.C20
 open Rtp Rtp.Model Rtp.Pred.C20
 
@@ -62,5 +63,121 @@ example : pktMarshal (applyMut (.delExt 1) ex) ≠ pktMarshal ex := by decide
 example : (scenario ex (.delExt 1) false).1 ≠ (scenario ex (.delExt 1) false).2 := by decide
 example : (modelObs { p := ex, nils := { csrc := false, payload := false, exts := false, extPl := [false, false] },
                       mutn := .delExt 1, onClone := true }).otherMarshal = pktMarshal ex := rfl
+
+/-! ## Clone over an explicit heap (Rtp/Model/CloneMem.lean)
+
+  The theorems above are about values.  The ones below are about MEMORY: slices are addresses of
+  backing arrays, `clone := h` copies slice headers (so it shares), `make`+`copy` allocates.  They
+  say that Clone as written in packet.go replaces every shared slice by a fresh one, and derive
+  independence from disjointness (a frame argument) instead of from immutability.  The model of
+  the allocation structure is tied to the real code by the pointer-overlap flags of `c20.clone`. -/
+
+section Memory
+open Rtp.Model.Mem Rtp.Proofs.CloneMem
+
+/-- equal: the clone reads as the original (all fields, nil-ness of CSRC / Payload / Extensions /
+    element payloads included), and cloning does not disturb the original -/
+theorem c20_mem_equal (H : Heap) (p : PacketM) (hok : okPacket H p) :
+    readPacket (pktCloneM H p).1 (pktCloneM H p).2 = readPacket H p ∧
+    nilsOf (pktCloneM H p).1 (pktCloneM H p).2 = nilsOf H p ∧
+    readPacket (pktCloneM H p).1 p = readPacket H p ∧
+    nilsOf (pktCloneM H p).1 p = nilsOf H p := by
+  have hc := pktCloneM_spec H p hok
+  obtain ⟨X, hX⟩ := hc.ext
+  have hf := frame_packet (H := H) (H' := (pktCloneM H p).1) p (by rw [hX]; exact same_ext H X _ (okPacket_lt hok))
+  exact ⟨hc.read, hc.nils, hf.1, hf.2.1⟩
+
+/-- disjoint: every backing array the clone reaches (CSRC, Payload, the []Extension array, every
+    element payload) was allocated by Clone; none is reachable from the original -/
+theorem c20_mem_disjoint (H : Heap) (p : PacketM) (hok : okPacket H p) :
+    (∀ a ∈ reachPacket (pktCloneM H p).1 (pktCloneM H p).2, H.length ≤ a) ∧
+    (∀ a ∈ reachPacket (pktCloneM H p).1 p, a < H.length) ∧
+    (∀ a, a ∈ reachPacket (pktCloneM H p).1 (pktCloneM H p).2 → a ∈ reachPacket (pktCloneM H p).1 p → False) := by
+  have hc := pktCloneM_spec H p hok
+  obtain ⟨X, hX⟩ := hc.ext
+  have hf := frame_packet (H := H) (H' := (pktCloneM H p).1) p (by rw [hX]; exact same_ext H X _ (okPacket_lt hok))
+  have h1 : ∀ a ∈ reachPacket (pktCloneM H p).1 (pktCloneM H p).2, H.length ≤ a := fun a ha => (hc.fresh a ha).1
+  have h2 : ∀ a ∈ reachPacket (pktCloneM H p).1 p, a < H.length := by
+    intro a ha; rw [hf.2.2] at ha; exact okPacket_lt hok a ha
+  exact ⟨h1, h2, fun a ha hb => by have := h1 a ha; have := h2 a hb; omega⟩
+
+/-- independent: let the memory change arbitrarily afterwards (`H''`), but only in cells the
+    CLONE reaches or in cells allocated later — this covers setting a payload byte, a CSRC entry, an
+    extension value byte, and SetExtension / DelExtension (which write into, or reallocate, the
+    clone's own []Extension array).  Then the original still reads, and serialises, as before.
+    And the same with the roles exchanged. -/
+theorem c20_mem_independent (H : Heap) (p : PacketM) (hok : okPacket H p) (H'' : Heap) :
+    ((∀ a, a < (pktCloneM H p).1.length → a ∉ reachPacket (pktCloneM H p).1 (pktCloneM H p).2 →
+        H''[a]? = (pktCloneM H p).1[a]?) →
+      readPacket H'' p = readPacket H p ∧ nilsOf H'' p = nilsOf H p ∧
+      pktMarshal (readPacket H'' p) = pktMarshal (readPacket H p)) ∧
+    ((∀ a, a < (pktCloneM H p).1.length → a ∉ reachPacket (pktCloneM H p).1 p →
+        H''[a]? = (pktCloneM H p).1[a]?) →
+      readPacket H'' (pktCloneM H p).2 = readPacket H p ∧ nilsOf H'' (pktCloneM H p).2 = nilsOf H p ∧
+      pktMarshal (readPacket H'' (pktCloneM H p).2) = pktMarshal (readPacket H p)) := by
+  have hc := pktCloneM_spec H p hok
+  obtain ⟨heq1, heq2, heq3, heq4⟩ := c20_mem_equal H p hok
+  obtain ⟨hd1, hd2, hd3⟩ := c20_mem_disjoint H p hok
+  have hlen : H.length ≤ (pktCloneM H p).1.length := by obtain ⟨X, hX⟩ := hc.ext; rw [hX]; simp
+  constructor
+  · intro hconf
+    have hs : Same (pktCloneM H p).1 H'' (reachPacket (pktCloneM H p).1 p) := by
+      intro a ha
+      exact hconf a (by have := hd2 a ha; omega) (fun hb => hd3 a hb ha)
+    obtain ⟨f1, f2, _⟩ := frame_packet p hs
+    exact ⟨by rw [f1, heq3], by rw [f2, heq4], by rw [f1, heq3]⟩
+  · intro hconf
+    have hs : Same (pktCloneM H p).1 H'' (reachPacket (pktCloneM H p).1 (pktCloneM H p).2) := by
+      intro a ha
+      exact hconf a (hc.fresh a ha).2 (fun hb => hd3 a ha hb)
+    obtain ⟨f1, f2, _⟩ := frame_packet (pktCloneM H p).2 hs
+    exact ⟨by rw [f1, heq1], by rw [f2, heq2], by rw [f1, heq1]⟩
+
+/-- an in-place store into a cell one side reaches is such a change -/
+theorem c20_mem_store_confined (H' : Heap) (R : List Nat) (a : Nat) (c : Cell) (ha : a ∈ R) :
+    ∀ b, b < H'.length → b ∉ R → (H'.set a c)[b]? = H'[b]? := by
+  intro b _ hb
+  exact List.getElem?_set_ne (by intro h; subst h; exact hb ha)
+
+/-- and so is an allocation -/
+theorem c20_mem_alloc_confined (H' X : Heap) (R : List Nat) :
+    ∀ b, b < H'.length → b ∉ R → (H' ++ X)[b]? = H'[b]? :=
+  fun _ hb _ => List.getElem?_append_left hb
+
+/-- the link to the value-level model: what the heap-level clone reads as is `pktClone` of what
+    the original reads as -/
+theorem c20_mem_refines (H : Heap) (p : PacketM) (hok : okPacket H p) :
+    readPacket (pktCloneM H p).1 (pktCloneM H p).2 = pktClone (readPacket H p) :=
+  (c20_mem_equal H p hok).1
+
+/-! non-vacuity: a heap holding a packet with CSRCs, a payload, two elements (one with a nil
+    payload); Clone allocates five new cells; overwriting the clone's first element payload leaves
+    the original alone, while the same store on a header-copy (`clone := h` without the deep
+    copies) would not -/
+def exHeap : Heap :=
+  [.words [7, 8], .bytes [1, 2, 3], .bytes [0xAA], .exts [{ id := 1, payload := .at 2 }, { id := 2, payload := .nil }]]
+def exPkt : PacketM :=
+  { header := { scalars := { version := 2, extension := true, extProfile := 0x1000 }, csrc := .at 0, exts := .at 3 },
+    payload := .at 1, paddingSize := 0 }
+
+example : okPacket exHeap exPkt :=
+  ⟨⟨⟨_, rfl⟩, ⟨_, rfl, by
+      intro c hc
+      simp only [List.mem_cons, List.mem_nil_iff, or_false] at hc
+      rcases hc with rfl | rfl
+      · exact ⟨_, rfl⟩
+      · trivial⟩⟩, ⟨_, rfl⟩⟩
+example : (readPacket exHeap exPkt).header.exts = [{ id := 1, payload := [0xAA] }, { id := 2, payload := [] }] := by decide
+example : (pktCloneM exHeap exPkt).1.length = 8 := by decide
+example : reachPacket (pktCloneM exHeap exPkt).1 (pktCloneM exHeap exPkt).2 = [4, 6, 5, 7] := by decide
+example : reachPacket (pktCloneM exHeap exPkt).1 exPkt = [0, 3, 2, 1] := by decide
+example : nilsOf (pktCloneM exHeap exPkt).1 (pktCloneM exHeap exPkt).2 = (false, false, false, [false, true]) := by decide
+example : readPacket ((pktCloneM exHeap exPkt).1.set 5 (.bytes [0x55])) (pktCloneM exHeap exPkt).2
+    ≠ readPacket exHeap exPkt := by decide
+example : readPacket ((pktCloneM exHeap exPkt).1.set 5 (.bytes [0x55])) exPkt = readPacket exHeap exPkt := by decide
+/-- a shallow copy (the struct assignment alone) is NOT independent: the model distinguishes -/
+example : readPacket (exHeap.set 2 (.bytes [0x55])) exPkt ≠ readPacket exHeap exPkt := by decide
+
+end Memory
 
 end Rtp.Props.C20
